@@ -16,9 +16,9 @@ theorem struct_local (d : Dialect) (m m' : Mode) (hm : m.isCanon = false) (hm' :
        | .error e => .error e) := by
   simp only [parseField] at h ⊢
   cases fieldShell_ok _ _ _ _ _ _ _ _ h with
-  | emptyAbsent _ ho _ _ => cases ho
+  | emptyAbsent _ ho _ _ _ => cases ho
   | any ha _ _ => cases ha
-  | absent _ ho _ _ => cases ho
+  | absent _ ho _ _ _ => cases ho
   | flagSet hh _ _ =>
     unfold header at hh
     cases h0 : parseTagLen (d.forMode m) c with
